@@ -107,6 +107,15 @@ def verify_function(tu, fn_name, contracts, int_mode='bv', num_mode='real', pref
             ln = eval_clauses(exe, {'len': sp['len']}, st, fn_name, raw=True, pre=st)[0][1]
             from .cexpr import narrow_idx
             a.obj.length = narrow_idx(exe, ln)
+    # declared lengths of the arrays reached through pointer fields (model invariant: lengths per the X-macro table)
+    from .cexpr import narrow_idx as _ni, PtrView as _PV
+    for pd, a in zip(fn_params(fn), args):
+        sp = pspecs.get(pd.get('name')) or {}
+        for fld, fs in (sp.get('ptrfields') or {}).items():
+            if isinstance(a, Ptr) and fs.get('len') is not None:
+                pv = getattr(_PV(exe, st, a), fld)
+                ln = eval_clauses(exe, {'len': fs['len']}, st, fn_name, raw=True, pre=st)[0][1]
+                pv._p.obj.length = _ni(exe, ln)
     pre = st.fork()
     for cname, term in eval_clauses(exe, con.get('requires', {}), st, fn_name, pre=pre):
         st.assume(term)
